@@ -1,6 +1,6 @@
 """Path rules on the CFG: must-pass-after / must-pass-before, member write detection."""
 from .facts import strip, txt, callee, call_args, call_object, walk
-from .flow import element_writes, STD_ACCESSORS, ASSIGN_OPS, is_accessor
+from .flow import element_writes, STD_ACCESSORS, ASSIGN_OPS, is_accessor, STD_OUTPUT_ARGS
 
 
 def member_of(n):
@@ -25,6 +25,15 @@ def member_of(n):
             continue
         if k == "CXXOperatorCallExpr" and n.get("op") in ("[]", "*", "->"):
             n = strip(n["c"][1])
+            continue
+        if k == "BinaryOperator" and n.get("op") in ("+", "-"):
+            n = strip(n["c"][0])
+            continue
+        if k == "CXXOperatorCallExpr" and n.get("op") in ("+", "-") and len(n.get("c", [])) == 3:
+            n = strip(n["c"][1])
+            continue
+        if k in ("CXXConstructExpr", "CXXTemporaryObjectExpr") and len(n.get("c", [])) == 1:
+            n = strip(n["c"][0])
             continue
         if k == "CXXMemberCallExpr":
             o = call_object(n)
@@ -101,6 +110,12 @@ def member_writes(fn, into_lambda=True):
                     f = member_of(a) if a is not None else None
                     if f:
                         yield n, f, "update"
+            if k == "CallExpr" and callee(n) in STD_OUTPUT_ARGS:
+                for i in STD_OUTPUT_ARGS[callee(n)]:
+                    if i < len(args):
+                        f = member_of(args[i])
+                        if f:
+                            yield n, f, "update"
             if k == "CXXMemberCallExpr":
                 h = strip(n["c"][0], casts=False)
                 if h is not None and not h.get("cm") and not h.get("static") and not is_accessor(h.get("fn", "")):
